@@ -280,7 +280,9 @@ def trace_conformance(sample, prop):
     if out.get('format_problems'):
         # the independent native reader of the archive directory objects to what the real run wrote on a path the model found clean
         return 'independent format reader: %s (%s)' % (out['format_problems'][:2], path)
-    native = normalize_trace([(o[0], o[1]) for o in out.get('ops', []) if o[0] not in ('rewrite', 'follow_up')])
+    ops = out.get('ops', [])
+    cut = next((i for i, o in enumerate(ops) if o[0] == 'inspect'), len(ops))     # what follows is the replay's own read-only inspection
+    native = normalize_trace([(o[0], o[1]) for o in ops[:cut] if o[0] not in ('rewrite', 'follow_up')])
     model = normalize_trace(sample['storage_trace'])
     if sample.get('fired') and sample['fired'][3] in ('stop', 'empty_stop') and len(native) > len(model):
         native = native[:len(model)]      # the native hook also logs the operation it stopped at
